@@ -1,9 +1,19 @@
 use crate::raw::Table;
 use crate::reclaim::{Atomic, Collector, Guard, RetireShared, Shared};
+#[cfg(not(flurry_verif))]
 use core::sync::atomic::{AtomicBool, AtomicI64, Ordering};
+#[cfg(flurry_verif)]
+use crate::verif::shim as parking_lot;
+#[cfg(flurry_verif)]
+use crate::verif::{event, spin_hint, AtomicI64, Ev};
+#[cfg(flurry_verif)]
+use crate::verif::{current, park, Thread};
+#[cfg(flurry_verif)]
+use core::sync::atomic::{AtomicBool, Ordering};
 use parking_lot::Mutex;
 use seize::{Link, Linked};
 use std::borrow::Borrow;
+#[cfg(not(flurry_verif))]
 use std::thread::{current, park, Thread};
 
 /// Entry in a bin.
@@ -396,6 +406,8 @@ impl<K, V> TreeBin<K, V> {
                     .is_ok()
                 {
                     waiting = true;
+                    #[cfg(flurry_verif)]
+                    event(Ev::WriterSetWaiter, 0, 0);
                     let current_thread = Shared::boxed(current(), collector);
                     let waiter = self.waiter.swap(current_thread, Ordering::SeqCst, guard);
                     assert!(waiter.is_null());
@@ -403,6 +415,8 @@ impl<K, V> TreeBin<K, V> {
             } else if waiting {
                 park();
             }
+            #[cfg(flurry_verif)]
+            spin_hint();
             std::hint::spin_loop();
         }
     }
@@ -451,6 +465,8 @@ impl<K, V> TreeBin<K, V> {
                 // as active, the TreeNodes remain valid for at least as long as
                 // we hold onto the guard.
                 // Structurally, TreeNodes always point to TreeNodes, so this is sound.
+                #[cfg(flurry_verif)]
+                event(Ev::ReaderListFallback, 0, 0);
                 let element_deref = unsafe { TreeNode::get_tree_node(element) };
                 let element_key = &element_deref.node.key;
                 if element_deref.node.hash == hash && element_key.borrow() == key {
@@ -464,6 +480,8 @@ impl<K, V> TreeBin<K, V> {
             {
                 // the current lock state indicates no waiter or writer and we
                 // acquired a read lock
+                #[cfg(flurry_verif)]
+                event(Ev::ReaderTreePath, 0, 0);
                 let root = bin_deref.root.load(Ordering::SeqCst, guard);
                 let p = if root.is_null() {
                     Shared::null()
